@@ -86,8 +86,14 @@ auto_decode(void *coder_ptr, const lzma_allocator *allocator,
 				coder->next.coder, allocator,
 				in, in_pos, in_size,
 				out, out_pos, out_size, action);
+		// The .xz and .lz decoders handle LZMA_CONCATENATED
+		// themselves (get_check is NULL only with LZMA_Alone).
+		// For example, data after the last .lz member ends the
+		// decoding like it does with lzma_lzip_decoder(); it
+		// isn't an error.
 		if (ret != LZMA_STREAM_END
-				|| (coder->flags & LZMA_CONCATENATED) == 0)
+				|| (coder->flags & LZMA_CONCATENATED) == 0
+				|| coder->next.get_check != NULL)
 			return ret;
 
 		coder->sequence = SEQ_FINISH;
